@@ -166,7 +166,12 @@ class LossFn:
         self.family = lcfg["family"]
         self.metric = lcfg.get("metric")
         k = lcfg.get("scale_exp", 0)
-        self.scale = None if not k else num(1, 10 ** k)
+        if not k:
+            self.scale = None
+        elif isinstance(num(1), float):
+            self.scale = float("1e-%d" % k)          # also reaches the subnormal range (k > 308)
+        else:
+            self.scale = num(1, 10 ** k)
         self.seed = lcfg.get("seed", 0)
         self.num = num
         self.multi = multi
@@ -203,6 +208,14 @@ class LossFn:
             if self.metric == "Accuracy":
                 return -1.0 if y == p else -0.0
             raise ValueError(self.metric)
+        if fam == "bool01":
+            # a zero-one loss that returns a Python bool (True = wrong)
+            if self.multi:
+                if not pred:
+                    return True
+                top = max(sorted(pred, key=repr), key=lambda lab: pred[lab])
+                return bool(top != y)
+            return bool(abs(y - pred.get("output", 0)) > num(3, 2))
         if fam == "hash":
             # a label with value 0 is the same prediction as a missing label (the library's own convention)
             items = tuple(sorted((repr(k), canon(v)) for k, v in pred.items() if v != 0))
@@ -694,8 +707,9 @@ def effective(ecfg, world):
             out["alpha"] = Exact(0.001) if world.arith == "exact" else 0.001
             out["inexact"] = bool(out["dynamic"])
         out["lbib"] = ecfg.get("lbib", False)
-    if world.cfg.get("loss", {}).get("family") == "river":
-        out["inexact"] = True      # a river metric reports doubles; the library averages them in float arithmetic
+    if world.cfg.get("loss", {}).get("family") in ("river", "bool01"):
+        # a river metric reports doubles, a zero-one loss bools/ints: the library averages them in float arithmetic
+        out["inexact"] = True
     if cls == "interval":
         out["interval_length"] = ecfg.get("interval_length", 1000)
         out["storage_length"] = ecfg.get("storage_length", 1000)
